@@ -316,7 +316,7 @@ impl<const N: usize> Ex<N> {
                 }
             };
         }
-        arms!(0 1 2 3 4 5 6 8);
+        arms!(0 1 2 3 4 5 6 8 11);
         out
     }
 
@@ -371,6 +371,28 @@ impl<const N: usize> Ex<N> {
                 self.fail(own, format!("partial_cmp of {va:?} vs {vs:?} (capacities {N}, {M}) = {pc:?} / reversed {pc2:?}"));
             } else if want_eq && M == N && ha != hb {
                 self.fail(own, format!("equal buffers {va:?} of the same capacity hash differently (layouts differ)"));
+            }
+        }
+        if self.fail.is_none() && !self.window_panicked && self.faulted.is_none() {
+            // cross-type equality: CircularBuffer<N, Tracked> == CircularBuffer<M, Plain>
+            let mut tp: CircularBuffer<M, Plain> = CircularBuffer::new();
+            if M > 0 {
+                for _ in 0..((rot + 1) % M) {
+                    tp.push_back(Plain(9));
+                    tp.pop_front();
+                }
+            }
+            for v in &vs {
+                tp.push_back(Plain(*v));
+            }
+            let a = self.bufs[x].as_ref().unwrap();
+            let tpr = &tp;
+            let r = window(|| **a == *tpr);
+            self.allocs += crate::alloc::take_op_allocs();
+            if let Some(eq) = self.settle(r, false, own) {
+                if eq != want_eq {
+                    self.fail(own, format!("capacity {N} buffer {va:?} == capacity {M} buffer of plain values {vs:?} gave {eq}"));
+                }
             }
         }
         if M == N && self.fail.is_none() && !self.window_panicked {
